@@ -284,7 +284,7 @@ func NewVaryHeaderNormalizer() VaryHeaderNormalizer {
 func normalizeVaryHeaderSeq2(vary string, reqHeader http.Header) iter.Seq2[string, string] {
 	return func(yield func(string, string) bool) {
 		for name := range TrimmedCSVCanonicalSeq(vary) {
-			values := reqHeader[name]
+			values := headerValues(reqHeader, name)
 			value := ""
 			// an empty value is valid and means "no variation"
 			if len(values) > 0 {
